@@ -22,6 +22,8 @@ Record checker_cfg := {
   conv_bare : list cls;                         (* the set literal tested in convert_to_typing_types *)
   conv_origins : list tname;                    (* builtin origins translated by convert_to_typing_types *)
   conv_type_keeps_classes : bool;               (* type[C]: a class argument is kept, only generic arguments are converted *)
+  newtype_recurses : bool;                      (* NewType of a non-class supertype: checked against the supertype by _is_instance *)
+  tuple_empty_ok : bool;                        (* _has_required_type_arguments: Tuple[()] is complete *)
   sig_catches : list exn;                       (* _instancecheck_callable: exceptions of inspect.signature answered with False *)
   handlers : list (list exn * haction);         (* except clauses of _check_type, in order *)
   mismatch_raises : exn;                        (* what assert_value_matches_type raises on a False verdict *)
